@@ -308,6 +308,7 @@ let node_op tok : NodeSys.sop * (BinNums.coq_N * BinNums.coq_N) list =
     | "K" -> NodeSys.SAlias (nz p.(1), nz p.(2))
     | "M" -> NodeSys.SMute (nz p.(1), p.(2) = "1")
     | "Q" -> NodeSys.SSetClaims (nz p.(1), (if p.(2) = "-" then [] else parse_ranges (S.concat "/" (split '/' p.(2)))))
+    | "E" -> NodeSys.SClose (nz p.(1))
     | "A" -> NodeSys.SAll
     | "P" -> NodeSys.SIface (nz p.(1), unhex p.(2))
     | "O" -> NodeSys.SPopWrites (nz p.(1))
